@@ -12,16 +12,22 @@ META = {
     "text": "ServerLifecycle.tla models grpc.Server at settled-step granularity: per-connection handler quota (pending streams get a "
             "handler only while fewer than MaxConcurrentStreams handlers of the connection run), client cancellation, handler "
             "return with a status, GracefulStop and Stop at any point. TLC checks I_Sem, I_GracefulWaits, I_GracefulServes, "
-            "I_NoAcceptAfter and I_StopCancels for 2 connections x 2 RPCs with limit 1 (and 1 connection x 3 RPCs with limit 2) "
-            "(negative controls: quota not enforced; GracefulStop not waiting for handlers). Every transition of the state graph "
-            "(a seeded sample in the quick tier) is executed on the real grpc.Server with real ClientConns over bufconn inside a "
-            "synctest bubble, handlers blocking on driver-controlled channels; after each step the bubble is quiescent and the "
-            "observables (handler entry/exit, ctx.Done, client status, GracefulStop/Stop returned, maximum concurrent handlers per "
-            "connection) are recorded; TLC validates each trace against the property clauses and the model.",
+            "I_NoAcceptAfter and I_StopCancels for 2 connections x 2 RPCs with limit 1 and 1 connection x 3 RPCs with limit 2 "
+            "(thorough: also 2 x 3 with limit 2, model only; negative controls: quota not enforced; GracefulStop not waiting for "
+            "handlers). Every transition of the state graphs (a seeded sample in the quick tier) is executed on the real grpc.Server "
+            "with real ClientConns over bufconn inside a synctest bubble, handlers blocking on driver-controlled channels; after each "
+            "step the bubble is quiescent and the observables (handler entry/exit, ctx.Done, client status, GracefulStop/Stop "
+            "returned, maximum concurrent handlers per connection, handlers running when GracefulStop returned) are recorded; TLC "
+            "validates each trace against the property clauses (Sem, GracefulWaits, GracefulServes, NoAcceptAfter, StopCancelsCtx, "
+            "StopClientNonOK, AcceptedNeverServed) and against the model (drift).",
     "note": "Clauses are judged at quiescent points (synctest.Wait plus a virtual 6 s sleep) except the handler-concurrency maximum and "
             "the number of handlers running when GracefulStop returns, which are sampled continuously by the handlers. 'Accepted "
             "after GracefulStop' is an RPC started by the client after the call and quiescence. The atomicSemaphore is exercised "
-            "through cancelled-but-still-running handlers; its atomic interleavings are not separately gated.",
+            "through cancelled-but-still-running handlers; its atomic interleavings are not separately gated. synctest cannot settle "
+            "while a goroutine waits for a mutex, therefore: Stop during a GracefulStop is replayed with obedient handlers (they return "
+            "when their context is done), and a GracefulStop issued while a connection's reader is parked in the handler quota is "
+            "replayed together with the return of one handler of that connection (the reader holds http2Server.maxStreamMu, which "
+            "the writer needs for the GOAWAY).",
 }
 
 
@@ -64,6 +70,9 @@ def scope(ctx, binary, mccfg, tracecfg, nc, nr, limit, cap, tag):
     behs = ctx.edge_cover(g, step_of, limit=cap)
     tpath = os.path.join(ctx.run, "trace-%s.ndjson" % tag)
     # the behaviours are independent: replay them in SHARDS driver processes side by side
+    # behaviours with a GracefulStop issued while a stream waits at the handler quota go last (should the
+    # quota lose a wake-up they cannot settle, whereas the others record the starved stream)
+    behs.sort(key=lambda b: 1 if any(s["a"] == "gfinish" for s in b) else 0)
     shards = [behs[i::SHARDS] for i in range(SHARDS)]
     shards = [s for s in shards if s]
 
@@ -71,19 +80,32 @@ def scope(ctx, binary, mccfg, tracecfg, nc, nr, limit, cap, tag):
         bpath = os.path.join(ctx.run, "beh-%s-%d.ndjson" % (tag, i))
         opath = os.path.join(ctx.run, "trace-%s-%d.ndjson" % (tag, i))
         write_ndjson(bpath, shards[i])
-        ctx.driver(binary, "TestVerifC25Replay", {"VERIF_BEHAVIOURS": bpath, "VERIF_OUT": opath,
-                                                   "VERIF_NC": nc, "VERIF_NR": nr, "VERIF_LIMIT": limit}, timeout=ctx.pick(420, 1500))
-        return opath
+        try:
+            ctx.driver(binary, "TestVerifC25Replay", {"VERIF_BEHAVIOURS": bpath, "VERIF_OUT": opath,
+                                                       "VERIF_NC": nc, "VERIF_NR": nr, "VERIF_LIMIT": limit},
+                       timeout=ctx.pick(240, 1500))
+        except Inconclusive as e:
+            return opath, e       # e.g. the bubble cannot settle; the trace written so far is still judged
+        return opath, None
 
     with concurrent.futures.ThreadPoolExecutor(len(shards)) as ex:
         outs = list(ex.map(one, range(len(shards))))
+    failed = [e for _, e in outs if e is not None]
     with open(tpath, "w") as f:
-        for o in outs:
-            f.write(open(o).read())
+        for o, _ in outs:
+            if os.path.exists(o):
+                f.write(open(o).read())
+    if os.path.getsize(tpath) == 0:
+        raise failed[0] if failed else Inconclusive("empty trace")
     for b in behs:
         ctx.count([tag, b], nontrivial=len(b) >= 3)
     ctx.sample({"scope": tag, "behaviour": behs[len(behs) // 2]})
-    judge(ctx, ctx.validate("ServerLifecycleTrace", tracecfg, tpath), tpath, "replay of TLC behaviours (%s)" % tag)
+    res = ctx.validate("ServerLifecycleTrace", tracecfg, tpath)
+    judge(ctx, res, tpath, "replay of TLC behaviours (%s)" % tag)
+    if res["accepted"] and failed:
+        raise failed[0]
+    if res["accepted"] and '"ev":"stuck"' in open(tpath).read():
+        raise Inconclusive("the server could not be stopped after a behaviour (driver gave up) and no clause was violated")
 
 
 def run(ctx):
@@ -91,8 +113,13 @@ def run(ctx):
     ctx.neg("ServerLifecycle", "ServerLifecycleNeg.cfg", expect="I_Sem", workers=2)
     ctx.neg("ServerLifecycle", "ServerLifecycleNeg2.cfg", expect="I_GracefulWaits", workers=2)
     binary = ctx.go_build("internal/zzverif/c25")
-    scope(ctx, binary, "ServerLifecycleMC.cfg", "ServerLifecycleTrace.cfg", 2, 2, 1, ctx.pick(1200, None), "2x2-limit1")
+    scope(ctx, binary, "ServerLifecycleMC.cfg", "ServerLifecycleTrace.cfg", 2, 2, 1, ctx.pick(1000, None), "2x2-limit1")
+    if ctx.violations:
+        return
     scope(ctx, binary, "ServerLifecycleMC2.cfg", "ServerLifecycleTrace2.cfg", 1, 3, 2, ctx.pick(400, None), "1x3-limit2")
+    if not ctx.quick() and not ctx.violations:
+        # deeper model check only (2 connections x 3 RPCs, limit 2: ~0.5 M states), not replayed
+        ctx.mc("ServerLifecycle", "ServerLifecycleMC3.cfg", workers=8, timeout=1200)
     ctx.cov["rule"] = ("behaviours = edge cover of the TLC state graph of ServerLifecycle.tla (BFS prefix + one transition; seeded sample "
                        "in the quick tier), each executed step by step on the real server inside a synctest bubble; non-trivial = >= 3 "
                        "steps; distinct by scope and step sequence")
